@@ -38,7 +38,7 @@ func ruleL1(c *Ctx, rule string) {
 			}
 		})
 		falseOnlyNonNil := true
-		gf := mustFlow(re, facts{}, nil, func(f facts, b *ssa.BasicBlock, s int) facts { return f.with(valueEdgeFacts(b, s)...) })
+		gf := mustFlow(re, facts{}, valueGen, func(f facts, b *ssa.BasicBlock, s int) facts { return f.with(valueEdgeFacts(b, s)...) })
 		for _, ret := range returnsOf(re) {
 			if k, ok := ret.Results[0].(*ssa.Const); ok && k.Value != nil && k.Value.String() == "false" {
 				fs, _ := gf.at(ret)
